@@ -17,7 +17,7 @@ import (
 
 // ---------------------------------------------------------------- C08: case enumeration
 
-var obsUniverse = []ct.Comp{ct.P, ct.Q, ct.R1, ct.T9}
+var obsUniverse = []ct.Comp{ct.P, ct.Q, ct.R1, ct.T9, ct.R2}
 
 func subsets(u []ct.Comp) []ct.Set {
 	var out []ct.Set
@@ -97,6 +97,8 @@ func obsFilters() []model.FilterSpec {
 		{Params: []ct.Comp{ct.Q}},                       // f1
 		{Params: []ct.Comp{ct.R1}},                      // f2
 		{Params: []ct.Comp{ct.P}},                       // f3
+		{Params: []ct.Comp{ct.R1, ct.R2}},               // f4
+		{Params: []ct.Comp{ct.P}, Without: ct.Of(ct.R1)}, // f5
 	}
 }
 
@@ -188,6 +190,19 @@ func transitions(p *obsProg, full bool) {
 		}
 	}
 	p.do(model.Op{K: model.OpEmit, E: model.ZeroTarget, N: 0})
+	// two relation components: retarget one, both, or none of them in one call
+	{
+		e := p.n()
+		p.do(model.Op{K: model.OpNew, Path: model.PathMapN, Cs: ct.Of(ct.R1, ct.R2), T: []model.RelT{{C: ct.R1, T: t1}, {C: ct.R2, T: t1}}})
+		p.do(model.Op{K: model.OpSetRel, Path: model.PathMapN, E: e, Ord: []ct.Comp{ct.R1, ct.R2}, T: []model.RelT{{C: ct.R1, T: t1}, {C: ct.R2, T: t2}}}) // only R2 changes
+		p.do(model.Op{K: model.OpSetRel, Path: model.PathUnsafe, E: e, T: []model.RelT{{C: ct.R1, T: t2}, {C: ct.R2, T: t2}}})                            // only R1 changes
+		p.do(model.Op{K: model.OpSetRel, Path: model.PathMapN, E: e, Ord: []ct.Comp{ct.R1, ct.R2}, T: []model.RelT{{C: ct.R1, T: t1}, {C: ct.R2, T: t1}}}) // both change
+		p.do(model.Op{K: model.OpSetRel, Path: model.PathUnsafe, E: e, T: []model.RelT{{C: ct.R1, T: t1}, {C: ct.R2, T: t1}}})                            // none changes
+		p.do(model.Op{K: model.OpSetRelBatch, Path: model.PathMapN, F: 4, Ord: []ct.Comp{ct.R1, ct.R2}, T: []model.RelT{{C: ct.R1, T: t1}, {C: ct.R2, T: t2}}, Fn: true})
+		p.do(model.Op{K: model.OpRemove, Path: model.PathMapN, E: e, Rm: ct.Of(ct.R2)})
+		p.do(model.Op{K: model.OpAdd, Path: model.PathMapN, E: e, Cs: ct.Of(ct.R2), T: rel(ct.R2, t2)})
+		p.do(model.Op{K: model.OpRemoveEntity, E: e})
+	}
 	// batch forms: populate several tables, then batch-transition them
 	for round := 0; round < 2; round++ {
 		p.do(model.Op{K: model.OpNewEntities, N: 2, Fn: round == 0})
@@ -199,7 +214,10 @@ func transitions(p *obsProg, full bool) {
 		p.do(model.Op{K: model.OpSetRelBatch, Path: model.PathMapN, F: 2, T: rel(ct.R1, t2), Fn: round == 1})
 		p.do(model.Op{K: model.OpExchangeBatch, F: 1, Cs: ct.Of(ct.T9), Rm: ct.Of(ct.Q), Fn: true})
 		p.do(model.Op{K: model.OpRemoveBatch, Path: model.PathMapN, F: 2, Rm: ct.Of(ct.R1), Fn: round == 0})
-		p.do(model.Op{K: model.OpAddBatch, Path: model.PathMapN, F: 3, Cs: ct.Of(ct.R1), T: rel(ct.R1, t1)})
+		p.do(model.Op{K: model.OpNew, Path: model.PathUnsafe, Cs: ct.Of(ct.P, ct.R1), T: rel(ct.R1, t1)}) // destination of the next batch is not empty
+		p.do(model.Op{K: model.OpNew, Path: model.PathUnsafe, Cs: ct.Of(ct.P)})
+		p.do(model.Op{K: model.OpNew, Path: model.PathUnsafe, Cs: ct.Of(ct.P)})
+		p.do(model.Op{K: model.OpAddBatch, Path: model.PathMapN, F: 4 + 1, Cs: ct.Of(ct.R1), T: rel(ct.R1, t1)})
 		p.do(model.Op{K: model.OpExchangeBatch, F: 2, Cs: ct.Of(ct.Q), Rm: ct.Of(ct.R1, ct.P)})
 		p.do(model.Op{K: model.OpRemoveEntities, F: 1, Fn: round == 1})
 		p.do(model.Op{K: model.OpRemoveEntities, F: 3})
@@ -332,7 +350,11 @@ func init() {
 			gen := func(emit func(obsCase)) {
 				// singles over the 3-component universe
 				for _, ev := range events {
-					for _, s := range obsSpecs(ev, u3) {
+					u := u3
+					if ev == model.EvAddRelations || ev == model.EvRemoveRelations {
+						u = []ct.Comp{ct.P, ct.R1, ct.R2}
+					}
+					for _, s := range obsSpecs(ev, u) {
 						emit(obsCase{Specs: []model.ObsSpec{s}, Plan: 0, Full: true})
 					}
 				}
@@ -502,6 +524,8 @@ func init() {
 				)
 				for _, t := range tg[1:] {
 					ops = append(ops,
+						model.Op{K: model.OpNewBatch, Path: model.PathMap, Cs: ct.Of(ct.R1), N: 2, T: rel(ct.R1, t), Init: model.InitNil},
+						model.Op{K: model.OpNewBatch, Path: model.PathMapN, Cs: ct.Of(ct.R1, ct.R2), N: 1, T: []model.RelT{{C: ct.R1, T: t}, {C: ct.R2, T: t}}, Init: model.InitNil},
 						model.Op{K: model.OpNewBatch, Path: model.PathMapN, Cs: ct.Of(ct.P, ct.R1), N: 2, T: rel(ct.R1, t)},
 						model.Op{K: model.OpAddBatch, Path: model.PathMapN, F: 4, Cs: ct.Of(ct.R1), T: rel(ct.R1, t)},
 						model.Op{K: model.OpSetRelBatch, Path: model.PathMapN, F: 0, QT: rel(ct.R1, t), T: rel(ct.R1, model.ZeroTarget), Fn: true},
@@ -522,6 +546,26 @@ func init() {
 				Preludes: pre,
 				Alphabet: concat(relAlphabet(relOpts{path: path, maxAlive: 6, batch: true, two: path == model.PathMapN, nTargets: 2}), extra(path)),
 				Depth:    d,
+			})
+		}
+		// only relation observers registered (no entity/component observers): other lock decisions
+		{
+			var regRel []model.Op
+			for i, o := range obs {
+				if o.Event == model.EvAddRelations || o.Event == model.EvRemoveRelations {
+					regRel = append(regRel, model.Op{K: model.OpObserve, O: i})
+				}
+			}
+			var pre [][]model.Op
+			for _, p := range relPreludes(model.PathMapN)[1:3] {
+				pre = append(pre, append(append([]model.Op{}, regRel...), p...))
+			}
+			scs = append(scs, &engine.Scenario{
+				Name: "C09-callbacks/relation-observers-only", Cfgs: cfgs([]int{1}, []int{0}, []api.RelMode{api.RelByIdx}, u), Filters: filters, Obs: obs, Slots: 1,
+				Oracle:   drv.Oracle{World: true, Events: true, InCb: true, Lock: true},
+				Preludes: pre,
+				Alphabet: concat(relAlphabet(relOpts{path: model.PathMapN, maxAlive: 6, batch: true, two: true, nTargets: 2}), extra(model.PathMapN)),
+				Depth:    d - 1,
 			})
 		}
 		return &Check{ID: "C09", Scenarios: scs,
